@@ -4,6 +4,6 @@ from .simprops import generic_run, sizes, sim_replay
 from .p_endpoint import run_endpoint_correspondence
 LABELS = {"C12", "C07", "PANIC"}
 def run(ctx):
-    generic_run(ctx, LABELS, extra=run_endpoint_correspondence, plan=[("handshake", lambda: F.fam_handshake(ctx.rng, sizes(ctx, 300, 3000))), ("sparse_polls", lambda: F.fam_sparse_polls(ctx.rng, sizes(ctx, 120, 1000))), ("poll_only", lambda: F.fam_poll_only(ctx.rng, sizes(ctx, 40, 300))), ("nodrain", lambda: F.fam_long(ctx.rng, sizes(ctx, 6, 60), tag="nd", duration=20000, nodrain=1)), ("lead", lambda: F.fam_lead(ctx.rng, sizes(ctx, 20, 100))), ("event_flood", lambda: F.fam_event_flood(ctx.rng, sizes(ctx, 12, 100))), ("silent_spectator", lambda: F.fam_silent_spectator(ctx.rng, sizes(ctx, 60, 500))), ("silent_spectator_burst", lambda: F.fam_silent_spectator_burst(ctx.rng, sizes(ctx, 40, 400))), ("paused_spectator", lambda: F.fam_paused_spectator(ctx.rng, sizes(ctx, 150, 1500)))])
+    generic_run(ctx, LABELS, extra=run_endpoint_correspondence, plan=[("late_joiner_after_drop", lambda: F.fam_late_joiner_after_drop(ctx.rng, sizes(ctx, 40, 300))), ("handshake", lambda: F.fam_handshake(ctx.rng, sizes(ctx, 300, 3000))), ("sparse_polls", lambda: F.fam_sparse_polls(ctx.rng, sizes(ctx, 120, 1000))), ("poll_only", lambda: F.fam_poll_only(ctx.rng, sizes(ctx, 40, 300))), ("nodrain", lambda: F.fam_long(ctx.rng, sizes(ctx, 6, 60), tag="nd", duration=20000, nodrain=1)), ("lead", lambda: F.fam_lead(ctx.rng, sizes(ctx, 20, 100))), ("event_flood", lambda: F.fam_event_flood(ctx.rng, sizes(ctx, 12, 100))), ("silent_spectator", lambda: F.fam_silent_spectator(ctx.rng, sizes(ctx, 60, 500))), ("silent_spectator_burst", lambda: F.fam_silent_spectator_burst(ctx.rng, sizes(ctx, 40, 400))), ("paused_spectator", lambda: F.fam_paused_spectator(ctx.rng, sizes(ctx, 150, 1500)))])
 def replay(ctx, path):
     return sim_replay(ctx, path, LABELS)
